@@ -155,6 +155,14 @@ def gen_inputs(run):
     for i, s in enumerate(SEEDS):
         for db in (None, G.TEMPLATE_UNIVERSES[2], G.TEMPLATE_UNIVERSES[5]):
             add(s, G.LANGS[i % 12], db, "seed")
+    # attribute values over the number-like corner of Unicode, in every construct that takes attributes (exhaustive: char x construct)
+    for i, raw in enumerate(G.attr_family()):
+        add(raw, G.LANGS[i % 12], G.TEMPLATE_UNIVERSES[2] if (i % 3 == 0 or "{{" in raw) else None, "attrnum")
+    # one line with 10..60 apostrophe runs of lengths 2..6 (plain and with the runs supplied by a template)
+    for i, raw in enumerate(G.quote_family()):
+        add(raw, G.LANGS[i % 12], None, "quoteruns")
+        if i % 4 == 0:
+            add(raw.replace("'" * 5, "{{q5}}") + "\n\nnext\n", G.LANGS[i % 12], G.TEMPLATE_UNIVERSES[2], "quoteruns")
     # exhaustive repetition families: every alphabet token alone, and pairs, repeated up to the length bound
     alpha = G.alphabet()
     for i, t in enumerate(alpha):
